@@ -28,6 +28,9 @@ pub struct Src {
     pub fmode: u8,
 }
 
+/// Name of the 'big' slot's file.
+pub const BIG: &str = "big\"\\\n";
+
 pub const SRC0: Src = Src {
     f: 1,
     g: 1,
@@ -85,16 +88,15 @@ impl Src {
         }
         match self.big {
             1 => {
-                t.insert("big".into(), Node::file(b"XXXXxxxxXX", T0 + 121));
+                // (its name has a quote, a backslash and a newline: the index has to escape it)
+                t.insert(BIG.into(), Node::file(b"XXXXxxxxXX", T0 + 121));
             }
             2 => {
                 // (stamped in the year 2100: ahead of any clock this runs under)
-                t.insert("big".into(), Node::file(b"XXXXyyyyYY", 4_102_444_800 + 122));
+                t.insert(BIG.into(), Node::file(b"XXXXyyyyYY", 4_102_444_800 + 122));
             }
             _ => {}
         }
-        // (always there: a name the index has to escape - quote, backslash, newline)
-        t.insert("q\"\\\n".into(), Node::file(b"esc", T0 + 141));
         match self.l {
             1 => {
                 t.insert("l".into(), Node::symlink("f", T0 + 131));
